@@ -12,25 +12,25 @@ T = {
         , 'midpoint integration error bounded by a half-step re-integration on every 8th case; deciding class seg <= lambda/20 and matched segment lengths at >=3-wire junctions (DESIGN C01)'),
  'C02': ( 'impedance matrix vs independent MININEC-3 potential integrals'
         , 'executable reference model: adaptive quadrature (scipy quad, epsrel 1e-10) of the published formulation from recorded pulse geometry, compared entry-wise with the Z the real code filled'
-        , 'scipy.integrate.quad and numpy trusted; geometry reference re-derives pulse points/ends from the spec; wave number and small-radius condition of the reference are computed from the frequency, not read from the model; a second object created at another frequency and set to this one must reproduce the same terms'),
+        , 'scipy.integrate.quad and numpy trusted; geometry reference re-derives pulse points/ends from the spec; wave number and small-radius condition of the reference are computed from the frequency, not read from the model; a second object created at another frequency and set to this one must reproduce the same terms; insulated wires with the documented equivalent radius; workload includes the 65 hand-made antennas of /repo/test (pmv/corpus.py) and curves standing on the ground plane'),
  'C03': ( 'image theory: ideal ground vs free space + mirror image'
         , 'metamorphic oracle: the same real code run on the harness-built mirrored free-space model; description-invariant current field, feed impedances, gain - 3.0103 dB'
         , 'tolerance by condition number as stated in the property; cond > 1e5 skipped and counted'),
  'C04': ( 'near field vs independent field of the solved currents and charges; far-shell convergence'
         , 'executable reference model (Gauss-Legendre 48 x 4 with refinement self-check) of E = -jwA - grad Phi and H = curl A / mu from recorded currents, evaluated at the grid points compute_near_field just produced; far shells vs reported far field'
-        , 'reference shares numpy only; 0.136 % constant offset of the code (4.77783352 vs eta/8pi^2) is inside the 1 % budget'),
+        , 'reference shares numpy only; 0.136 % constant offset of the code (4.77783352 vs eta/8pi^2) is inside the 1 % budget; deviations above 1 % are the known finding near-field-finite-difference-step only if the reported field equals the same finite difference (H) / virtual-dipole voltage (E) formed from the exact potentials, recomputed for the point at hand; requests in whole numbers (python ints), corpus antennas'),
  'C05': ( 'rigid motion and scaling invariance, option route vs coordinate route'
         , 'metamorphic oracle over fresh runs: transformed model via --geo-* options vs motion written into coordinates vs untransformed; current field, impedances, rotated pattern samples'
-        , 'tolerance by condition number as stated'),
+        , 'tolerance by condition number as stated; third route through the classes of the library (whole numbers as ints, container tags computed before / after / in the middle); gain deviations on the scale of the main beam with the conditioning of the net input power; known finding quadrature-order-on-threshold classified by an experiment with the 8-point rule everywhere; corpus antennas and whole-number lattices'),
  'C06': ( 'description independence (reversal, permutation, retagging, collinear splitting), mirror symmetry'
         , 'metamorphic oracle over fresh runs with description-invariant observables (current field by position, impedance by location, near field at fixed points, gain)'
-        , 'inside the stated domain (validity filter: unconnected wires >= 2 segments apart, wires on a common neighbour >= 0.5 segments apart, one wire per ground point); field pattern compared as amplitude relative to the main beam; known findings classified by mechanism (feed at a current minimum, distributed load on a junction of three)'),
+        , 'inside the stated domain (validity filter: unconnected wires >= 2 segments apart, wires on a common neighbour >= 0.5 segments apart, one wire per ground point); field pattern compared as amplitude relative to the main beam; known findings classified by mechanism, each by an experiment made on the spot (feed at a current minimum, distributed load on a junction of three, exact kernel on a short neighbour, junction ends that meet only within the matching tolerance on thick wires); collinear objects with bitwise equal segment lengths; corpus antennas'),
  'C07': ( 'linearity in source voltages; source data = V/I, Re(VI*)/2'
         , 'algebraic oracle over fresh and reused model objects (scaling, superposition with others at 0 V / absent / re-registered on the same object) + solve-residual and power contracts + SOURCE DATA block parsed back'
         , 'numpy.linalg trusted; tolerance 1e-9 * cond'),
  'C08': ( 'loads as series circuit elements'
         , 'exact rational circuit reference (fractions) for RLC/trap/Laplace, README closed forms with scaled Bessel functions for skin effect and insulation, feed-impedance difference with/without load, neutral elements, monopole = half dipole cross-check'
-        , 'scipy.special trusted for Bessel functions'),
+        , 'scipy.special trusted for Bessel functions; models built through the command line and through the classes of the library (load objects created before the geometry is scaled); repeated solves on one object; load kinds by number (command line) against the same elements registered through the library'),
  'C09': ( 'Kirchhoff current law in the CURRENT DATA block'
         , 'offline checker over the parsed report: union-find junction clusters from the spec, signed sum of J lines, E lines, J line vs pulse currents through that wire end; enumerated junction topologies'
         , 'report reader is keyed on the fixed MININEC block headers'),
@@ -39,16 +39,16 @@ T = {
         , 'reference uses only pulse points, ends and currents'),
  'C11': ( 'real ground affects only the far field; conductivity limit; medium split / far medium'
         , 'bit-identity of Z, rhs, currents between ideal and real ground + recording proxy proving the matrix fill never reads the constants; monotone convergence in sigma; metamorphic medium split / far boundary'
-        , 'reflection-point distance for the far-medium variant computed by the harness from heights and elevation'),
+        , 'reflection-point distance for the far-medium variant computed by the harness from heights and elevation; negative zenith angles, interface through the origin, azimuth sweep = single requests, radial screen on uniform soil, Medium objects shared between models'),
  'C12': ( 'number, numbering and placement of pulses from the wire topology'
         , 'independent geometry reference (own segmentation, union-find junctions with the 1e-3 tolerance, ground detection) vs len(pulses), pulse points, segments, ANTENNA GEOMETRY block; end points perturbed around the tolerance'
-        , 'chains of near ends (diameter above the tolerance, neighbours within it) are expected joined transitively; the first-match joining of the code is emulated to classify the known finding near-end-chain-first-match'),
+        , 'chains of near ends (diameter above the tolerance, neighbours within it) are expected joined transitively; the first-match joining of the code is emulated to classify the known finding near-end-chain-first-match; scaled structures, tapered wires (tolerance from the program\'s own shortest segment of the exact structure), open arcs'),
  'C13': ( 'segmentation tiles each object; taper, arc, helix, transformation rules'
         , 'contract on compute_segments + independent formulas (README) for arcs/helices, taper growth/min/max/mirror rules, transformations recomputed from the spec'
         , 'taper requests the code rejects (fallback to equal segments) are counted, not judged'),
  'C14': ( 'no history dependence, no run-to-run variation'
         , 'history + executable model: random operation sequences on one object vs a fresh object per step (state and cache coherence); frequency sweep vs single runs; byte comparison of stdout and files over fresh interpreters with varied PYTHONHASHSEED / allocator / heap layout'
-        , 'fresh object built by the same code is the model of "pure function of (spec, f)"'),
+        , 'fresh object built by the same code is the model of "pure function of (spec, f)"; frequency steps of parts per million, repeated requests at other levels / distances, compute bursts; the same model through the command line and through the library in several call orders (routes) must give identical matrices, currents and reports'),
  'C15': ( 'option file round trip'
         , 'model equality between M and main(as_cmdline(M)) (objects, taper, transforms, sources, per-pulse load impedance, media), feed impedance within printed precision, second-generation text fixed point'
         , 'the reader is the program itself'),
